@@ -360,6 +360,22 @@ func runC11(ctx *Ctx) error {
 				{Op: "resume", Job: 0, Prog: []tStmt{{Op: "count"}}}, {Op: "delete", Job: 0}, {Op: "list"}, {Op: "restart"}, {Op: "list"}, {Op: "view", Job: 0}}})
 		}
 	}
+	if ctx.Replay == nil {
+		// marks and selections across a restart: the stored mark types are what a resumed select() and the
+		// conversion of stored selection rows depend on
+		fg := fixedGraph()
+		sel := []tStmt{{Op: "V"}, {Op: "as", Str: "a"}, {Op: "out"}, {Op: "as", Str: "b"}, {Op: "select", Strs: []string{"a", "b"}}}
+		marked := []tStmt{{Op: "V"}, {Op: "as", Str: "a"}, {Op: "outE"}, {Op: "as", Str: "e"}, {Op: "out"}}
+		inputs = append(inputs, c11Input{Graph: fg, Ops: []c11Op{
+			{Op: "submit", Prog: sel}, {Op: "submit", Prog: marked}, {Op: "view", Job: 0},
+			{Op: "resume", Job: 1, Prog: []tStmt{{Op: "select", Strs: []string{"a"}}}},
+			{Op: "restart"},
+			{Op: "view", Job: 0}, {Op: "resume", Job: 0, Prog: []tStmt{{Op: "limit", N: 100}}},
+			{Op: "resume", Job: 1, Prog: []tStmt{{Op: "select", Strs: []string{"a"}}}},
+			{Op: "resume", Job: 1, Prog: []tStmt{{Op: "select", Strs: []string{"a", "e"}}}},
+			{Op: "resume", Job: 1, Prog: []tStmt{{Op: "has", Has: &hExpr{Kind: "cond", Key: "$a.name", Op: "eq", Arg: "x"}}}},
+			{Op: "list"}}})
+	}
 	reqs := make([]json.RawMessage, len(inputs))
 	for i, in := range inputs {
 		reqs[i], _ = json.Marshal(in)
@@ -368,6 +384,7 @@ func runC11(ctx *Ctx) error {
 	os.Setenv("C11ROOT", root)
 	defer os.RemoveAll(root)
 	res := runIsolated("jobs", reqs, 8, 120*time.Second)
+	rerunFailed("jobs", reqs, res, 120*time.Second)
 	for i, in := range inputs {
 		var ob c11Obs
 		r := res[i]
